@@ -269,10 +269,10 @@ pub fn run_c14(ctx: &mut Ctx) {
 // C15
 
 pub fn run_c15(ctx: &mut Ctx) {
-    let n = nsel(ctx, 3, 4, 4, 8, 16);
+    let n = nsel(ctx, 3, 4, 4, 8, 22);
     for (wc, wr) in shapes(n) {
         for (recv, pshape, win) in placements(wc, wr, false) {
-            if wc > 8 && matches!(recv, Recv::Direct | Recv::ThinView) {
+            if wc > 8 && matches!(recv, Recv::Direct | Recv::ThinView | Recv::Nested) {
                 continue;
             }
             if !ctx.case(|| format!("C15 recv={:?} shape={}x{} parent={}x{} win={:?}", recv, wc, wr, pshape.0, pshape.1, win)) {
